@@ -18,6 +18,8 @@ fn prop_def(id: &str) -> Option<PropDef> {
         "C14" => PropDef { parts: props::c14::pure_parts(), rule: props::c14::RULE, assumptions: props::c14::ASSUMPTIONS, literal: Some(props::c14::check_literal) },
         "C03" => PropDef { parts: props::c03::parts_c03(), rule: props::c03::RULE_C03, assumptions: props::c03::ASSUMPTIONS, literal: None },
         "C04" => PropDef { parts: props::c03::parts_c04(), rule: props::c03::RULE_C04, assumptions: props::c03::ASSUMPTIONS, literal: None },
+        "C05" => PropDef { parts: props::c05::parts(), rule: props::c05::RULE, assumptions: props::c05::ASSUMPTIONS, literal: None },
+        "C06" => PropDef { parts: props::c06::parts(), rule: props::c06::RULE, assumptions: props::c06::ASSUMPTIONS, literal: None },
         _ => return None,
     })
 }
